@@ -118,6 +118,8 @@ func removedSet(v ssa.Value, par *ssa.Parameter, b *ssa.BasicBlock, depth int) (
 		return removedSet(x.X, par, b, depth+1)
 	case *ssa.ChangeType:
 		return removedSet(x.X, par, b, depth+1)
+	case *ssa.MakeSlice:
+		return sanitiserLoop(x, par)
 	case *ssa.Call:
 		cc := x.Common()
 		n := calleeName(cc)
@@ -423,8 +425,11 @@ func absentByFacts(par *ssa.Parameter, facts []Atom) map[byte]bool {
 // Emission tokens and path enumeration
 
 type tok struct {
-	K string // Const, TypeByte, Payload, San, SanRune, DecLen, DecCount, RecArray, RecElem, Unknown
-	S string
+	K   string // Const, TypeByte, Payload, San, SanRune, DecLen, DecCount, RecArray, RecElem, Unknown
+	S   string
+	Ins ssa.Instruction // the writing instruction (possibly inside an inlined helper)
+	B   *ssa.BasicBlock // the block of the top-level serializer in which it is emitted
+	V   ssa.Value       // DecLen/DecCount: the measured value; Rec*: the serializing call
 }
 
 func (t tok) String() string {
@@ -440,6 +445,12 @@ func (t tok) String() string {
 // canonField: "recvparam.field" for loads of a field of a parameter (no CSE in go/ssa).
 func canonField(v ssa.Value) (string, bool) {
 	v = strip(v)
+	if p, ok := v.(*ssa.Parameter); ok {
+		// a helper parameter standing for a field value of the serialized object
+		if al, ok := canonAlias[p]; ok && strings.Contains(al, ".") && !strings.HasPrefix(al, "?") {
+			return al, true
+		}
+	}
 	ld, ok := v.(*ssa.UnOp)
 	if !ok || ld.Op != token.MUL {
 		return "", false
@@ -454,7 +465,11 @@ func canonField(v ssa.Value) (string, bool) {
 	}
 	base := strip(fa.X)
 	if p, ok := base.(*ssa.Parameter); ok {
-		return p.Name() + "." + st.Field(fa.Field).Name(), true
+		name := p.Name()
+		if al, ok := canonAlias[p]; ok {
+			name = al
+		}
+		return name + "." + st.Field(fa.Field).Name(), true
 	}
 	if ex, ok := base.(*ssa.Extract); ok {
 		if call, ok := ex.Tuple.(*ssa.Call); ok {
@@ -599,18 +614,39 @@ func readTypeTables(p *Program) typeTables {
 			}
 		}
 	}
-	for m, kv := range maps {
-		mtyp, ok := m.Type().Underlying().(*types.Map)
-		if !ok {
+	// the tables are what the two lookup functions compute: a package-level map literal indexed
+	// by the argument, or a switch over the argument returning constants
+	globalMap := func(g *ssa.Global) map[int64]int64 {
+		for m, kv := range maps {
+			if names[m] == g.Name() {
+				return kv
+			}
+		}
+		return nil
+	}
+	for _, f := range p.RepoFuncs(pkgProto) {
+		if fnPkgPath(f) != pkgProto || f.Blocks == nil || len(f.Params) != 1 || f.Signature.Recv() != nil {
 			continue
 		}
-		if types.Identical(mtyp.Elem(), mt.Type()) && isByteType(mtyp.Key()) {
-			tt.byteToType = kv
+		res := f.Signature.Results()
+		if res.Len() != 2 || !isBoolType(res.At(1).Type()) {
+			continue
 		}
-		if types.Identical(mtyp.Key(), mt.Type()) && isByteType(mtyp.Elem()) {
-			tt.typeToByte = kv
+		toType := isByteType(f.Params[0].Type()) && types.Identical(res.At(0).Type(), mt.Type())
+		toByte := types.Identical(f.Params[0].Type(), mt.Type()) && isByteType(res.At(0).Type())
+		if !toType && !toByte {
+			continue
 		}
-		_ = names
+		tab, why := tableOfFn(f, globalMap)
+		if tab == nil {
+			tt.why = fnName(f) + ": " + why
+			continue
+		}
+		if toType {
+			tt.byteToType = tab
+		} else {
+			tt.typeToByte = tab
+		}
 	}
 	tt.ok = !dup && len(tt.byteToType) > 0 && len(tt.typeToByte) > 0
 	if dup {
@@ -819,9 +855,9 @@ func isConstIntVal(v ssa.Value, k int64) bool {
 }
 
 func checkMessageSerializer(c *Ctx, rid string, fn *ssa.Function, tt typeTables, strict bool) {
-	buf := outputBuffer(fn)
-	if buf == nil {
-		c.undecided(rid, "Message.RESPBytes/buffer", c.P.pos(fn.Pos()), "no local bytes.Buffer output found: the write idiom is not one the rule knows (bytes.Buffer Write/WriteByte/WriteRune/WriteString)")
+	m := serializerModel(c.P, fn, tt)
+	if m.Mode == "" {
+		c.undecided(rid, "Message.RESPBytes/buffer", c.P.pos(fn.Pos()), "no output accumulator found: the write idiom is not one the rule knows (a local bytes.Buffer written with Write/WriteByte/WriteRune/WriteString, or a []byte built by append): "+m.Why)
 		return
 	}
 	recv := fn.Params[0].Name()
@@ -833,7 +869,7 @@ func checkMessageSerializer(c *Ctx, rid string, fn *ssa.Function, tt typeTables,
 			}
 		}
 	})
-	paths, overflow := enumeratePaths(fn, writeTokens(fn, buf, tt), 4000)
+	paths, overflow := m.Paths, m.Overflow
 	if overflow {
 		c.undecided(rid, "Message.RESPBytes/paths", c.P.pos(fn.Pos()), "too many paths to enumerate")
 		return
@@ -907,6 +943,9 @@ func checkMessageSerializer(c *Ctx, rid string, fn *ssa.Function, tt typeTables,
 		}
 		if isErr {
 			continue
+		}
+		if !p.AccOK {
+			c.bad(rid, "Message.RESPBytes/returns-accumulator", c.P.instrPos(p.Ret), "a success return does not return the bytes built along its path")
 		}
 		toks := mergeConsts(p.Toks)
 		for _, k := range feasible {
@@ -985,9 +1024,13 @@ func checkMessageSerializer(c *Ctx, rid string, fn *ssa.Function, tt typeTables,
 }
 
 func checkArraySerializer(c *Ctx, rid string, fn *ssa.Function, tt typeTables) {
-	buf := outputBuffer(fn)
-	if buf == nil {
-		c.undecided(rid, "Array.RESPBytes/buffer", c.P.pos(fn.Pos()), "no local bytes.Buffer output found")
+	m := serializerModel(c.P, fn, tt)
+	if m.Mode == "" {
+		c.undecided(rid, "Array.RESPBytes/buffer", c.P.pos(fn.Pos()), "no output accumulator found (local bytes.Buffer or []byte built by append): "+m.Why)
+		return
+	}
+	if m.Overflow {
+		c.undecided(rid, "Array.RESPBytes/paths", c.P.pos(fn.Pos()), "too many paths to enumerate")
 		return
 	}
 	recv := fn.Params[0].Name()
@@ -997,33 +1040,73 @@ func checkArraySerializer(c *Ctx, rid string, fn *ssa.Function, tt typeTables) {
 		return
 	}
 	l := loops[0]
-	tokOf := writeTokens(fn, buf, tt)
-	// prefix: tokens in blocks dominating the header, outside the loop
+	// per success path: tokens emitted before the loop (in blocks dominating its header), inside
+	// the loop, and after it
 	var prefix []tok
 	var countVal ssa.Value
-	for _, b := range fn.Blocks {
-		if l.Blocks[b] || !b.Dominates(l.Header) {
+	havePrefix := false
+	prefixOK, afterOK := true, true
+	bodyOK, anyBody := true, false
+	for _, p := range m.Paths {
+		isErr := len(p.Ret.Results) == 2 && !isNilConst(retOperand(p.Ret, 1))
+		if isErr {
 			continue
 		}
-		for _, ins := range b.Instrs {
-			ts := tokOf(ins)
-			prefix = append(prefix, ts...)
-			for _, t := range ts {
-				if t.K == "DecCount" {
-					// recover the value
-					call := ins.(*ssa.Call)
-					it := strip(call.Common().Args[1]).(*ssa.Call)
-					countVal = strip(it.Common().Args[0])
-				}
+		if !p.AccOK {
+			c.bad(rid, "Array.RESPBytes/returns-accumulator", c.P.instrPos(p.Ret), "a success return does not return the bytes built along its path")
+		}
+		var pre, body, after []tok
+		for _, t := range p.Toks {
+			switch {
+			case t.B != nil && l.Blocks[t.B]:
+				body = append(body, t)
+			case t.B != nil && t.B.Dominates(l.Header):
+				pre = append(pre, t)
+			default:
+				after = append(after, t)
 			}
 		}
+		pre = mergeConsts(pre)
+		if !havePrefix {
+			prefix, havePrefix = pre, true
+			for _, t := range pre {
+				if t.K == "DecCount" {
+					if cl, ok := t.V.(*ssa.Call); ok {
+						countVal = cl
+					}
+				}
+			}
+		} else if toksString(pre) != toksString(prefix) {
+			prefixOK = false
+		}
+		if len(after) > 0 {
+			afterOK = false
+			c.bad(rid, "Array.RESPBytes/path", c.P.instrPos(p.Ret), "a success path of the array serializer emits "+toksString(after)+" after the element loop")
+		}
+		// did the path run the body (take a back edge)?
+		ran := false
+		for i := 0; i+1 < len(p.Blocks); i++ {
+			if p.Blocks[i+1] == l.Header && l.Blocks[p.Blocks[i]] {
+				ran = true
+			}
+		}
+		if ran {
+			anyBody = true
+			if !(len(body) == 1 && body[0].K == "RecElem") {
+				bodyOK = false
+				c.bad(rid, "Array.RESPBytes/iteration", c.P.pos(fn.Pos()), "a loop iteration emits "+toksString(body)+" instead of exactly one serialized element: the element count written in the header is not honoured")
+			}
+		} else if len(body) > 0 {
+			bodyOK = false
+			c.bad(rid, "Array.RESPBytes/iteration", c.P.pos(fn.Pos()), "the loop emits "+toksString(body)+" and leaves with success before completing the iteration")
+		}
 	}
-	prefix = mergeConsts(prefix)
-	okPrefix := len(prefix) == 3 && prefix[0].K == "Const" && prefix[0].S == "*" && prefix[1].K == "DecCount" && prefix[2].K == "Const" && prefix[2].S == "\r\n"
+	okPrefix := prefixOK && len(prefix) == 3 && prefix[0].K == "Const" && prefix[0].S == "*" && prefix[1].K == "DecCount" && prefix[2].K == "Const" && prefix[2].S == "\r\n"
 	if b, ok := tt.typeToByte[tt.consts["ArrayMessage"]]; ok && b != '*' {
 		okPrefix = false
 	}
 	c.check(okPrefix, rid, "Array.RESPBytes/header", c.P.pos(fn.Pos()), toksString(prefix), "array header emits "+toksString(prefix)+" instead of '*' Dec(count) CRLF")
+	_ = afterOK
 	// count = Size() = len(recv.msgs)
 	size := c.P.Method(pkgProto, "Array", "Size")
 	sizeOK := false
@@ -1037,14 +1120,16 @@ func checkArraySerializer(c *Ctx, rid string, fn *ssa.Function, tt typeTables) {
 		}
 	}
 	c.check(sizeOK, rid, "Array.Size", "", "Size() = len(msgs)", "Array.Size does not return len(msgs): the count written differs from the number of elements")
-	// loop: counter from 0 by 1, bound == countVal, element = recv.msgs[counter]
+	// loop: counter from 0 by 1 (or the lowered range form from -1), bound == countVal or
+	// len(recv.msgs), element = recv.msgs[counter]
 	var counter *ssa.Phi
 	for _, ins := range l.Header.Instrs {
-		if ph, ok := ins.(*ssa.Phi); ok {
+		if ph, ok := ins.(*ssa.Phi); ok && isIntType(ph.Type()) {
 			counter = ph
 		}
 	}
 	boundOK, elemOK, stepOK := false, false, false
+	var slotOff int64
 	if counter != nil {
 		init0, step1 := false, false
 		for i, e := range counter.Edges {
@@ -1054,6 +1139,7 @@ func checkArraySerializer(c *Ctx, rid string, fn *ssa.Function, tt typeTables) {
 				}
 			} else if cv, ok := constInt(e); ok && (cv == 0 || cv == -1) {
 				init0 = true
+				slotOff = -cv
 			}
 		}
 		stepOK = init0 && step1
@@ -1062,11 +1148,11 @@ func checkArraySerializer(c *Ctx, rid string, fn *ssa.Function, tt typeTables) {
 			for _, at := range atomsOf(iff.Cond, true) {
 				if at.Kind == "lt" && at.Pos {
 					x, y := linOf(at.X), linOf(at.Y)
-					if x.base == ssa.Value(counter) {
+					if x.base == ssa.Value(counter) && x.off == slotOff {
 						if countVal != nil && strip(at.Y) == countVal {
 							boundOK = true
 						}
-						if y.isLen {
+						if y.isLen && y.off == 0 {
 							if f, ok := canonField(y.base); ok && f == recv+".msgs" {
 								boundOK = true
 							}
@@ -1076,84 +1162,36 @@ func checkArraySerializer(c *Ctx, rid string, fn *ssa.Function, tt typeTables) {
 			}
 		}
 	}
-	// body paths: header -> header
-	bodyTokens := func() ([][]tok, bool) {
-		var outs [][]tok
-		okAll := true
-		var walk func(b *ssa.BasicBlock, toks []tok, seen map[*ssa.BasicBlock]bool)
-		walk = func(b *ssa.BasicBlock, toks []tok, seen map[*ssa.BasicBlock]bool) {
-			if seen[b] {
-				return
-			}
-			seen[b] = true
-			defer delete(seen, b)
-			for _, ins := range b.Instrs {
-				toks = append(toks, tokOf(ins)...)
-			}
-			for _, s := range b.Succs {
-				if s == l.Header {
-					outs = append(outs, append([]tok{}, toks...))
-					continue
-				}
-				if l.Blocks[s] {
-					walk(s, toks, seen)
-				}
-			}
-		}
-		for _, s := range l.Header.Succs {
-			if l.Blocks[s] {
-				walk(s, nil, map[*ssa.BasicBlock]bool{l.Header: true})
-			}
-		}
-		return outs, okAll
-	}
-	bodies, _ := bodyTokens()
-	bodyOK := len(bodies) > 0
-	for _, bt := range bodies {
-		if !(len(bt) == 1 && bt[0].K == "RecElem") {
-			bodyOK = false
-			c.bad(rid, "Array.RESPBytes/iteration", c.P.pos(fn.Pos()), "a loop iteration emits "+toksString(bt)+" instead of exactly one serialized element: the element count written in the header is not honoured")
-		}
-	}
 	// the element serialized is recv.msgs[counter]
-	allInstrs(fn, func(ins ssa.Instruction) {
-		if call, ok := ins.(*ssa.Call); ok && calleeName(call.Common()) == nRESPBytes && l.Blocks[call.Block()] {
+	for _, p := range m.Paths {
+		for _, t := range p.Toks {
+			if t.K != "RecElem" {
+				continue
+			}
+			call, ok := t.V.(*ssa.Call)
+			if !ok || !l.Blocks[call.Block()] {
+				continue
+			}
 			el := strip(call.Common().Args[0])
 			if ld, ok := el.(*ssa.UnOp); ok && ld.Op == token.MUL {
 				if ia, ok := ld.X.(*ssa.IndexAddr); ok {
 					if f, ok := canonField(ia.X); ok && f == recv+".msgs" {
 						ix := linOf(ia.Index)
-						if counter != nil && ix.base == ssa.Value(counter) && (ix.off == 0 || ix.off == 1) {
+						if counter != nil && ix.base == ssa.Value(counter) && ix.off == slotOff {
 							elemOK = true
 						}
 					}
 				}
 			}
 		}
-	})
-	if bodyOK {
+	}
+	if bodyOK && anyBody {
 		c.ok(rid, "Array.RESPBytes/iteration", c.P.pos(fn.Pos()), "every iteration emits exactly one serialized element or returns the error")
+	} else if !anyBody {
+		c.bad(rid, "Array.RESPBytes/iteration", c.P.pos(fn.Pos()), "no success path runs the element loop")
 	}
 	c.check(stepOK && boundOK && elemOK, rid, "Array.RESPBytes/loop", c.P.pos(fn.Pos()), "elements msgs[0..count) each serialized once, count is the value written in the header",
 		fmt.Sprintf("element loop does not cover msgs[0..count): counter-from-0-by-1=%v bound-is-count=%v element-is-msgs[counter]=%v", stepOK, boundOK, elemOK))
-	// after the loop: success return adds nothing; error aborts (no partial success)
-	paths, _ := enumeratePaths(fn, tokOf, 2000)
-	for _, p := range paths {
-		isErr := len(p.Ret.Results) == 2 && !isNilConst(retOperand(p.Ret, 1))
-		if isErr {
-			continue
-		}
-		toks := mergeConsts(p.Toks)
-		okp := len(toks) >= 3
-		for i, t := range toks {
-			if i >= 3 && t.K != "RecElem" {
-				okp = false
-			}
-		}
-		if !okp {
-			c.bad(rid, "Array.RESPBytes/path", c.P.instrPos(p.Ret), "a success path of the array serializer emits "+toksString(toks))
-		}
-	}
 }
 
 // ruleConstructors: R01.d.
@@ -1175,78 +1213,77 @@ func ruleConstructors(c *Ctx) {
 		}
 		n++
 		c.analysed(fn)
-		var typ int64 = -99
-		var setBytes ssa.Value
-		var hasSetArray bool
-		allInstrs(fn, func(ins ssa.Instruction) {
-			call, ok := ins.(*ssa.Call)
-			if !ok {
-				return
-			}
-			switch calleeName(call.Common()) {
-			case pkgProto + ".NewMessageWithType":
-				if k, ok := constInt(call.Common().Args[0]); ok {
-					typ = k
-				}
-			case "(*" + pkgProto + ".Message).SetBytes":
-				setBytes = call.Common().Args[1]
-			case "(*" + pkgProto + ".Message).SetArray":
-				hasSetArray = true
-			}
-		})
 		key := "constructor/" + name
 		pos := c.P.pos(fn.Pos())
+		sum := summarizeCtor(fn, map[*ssa.Parameter]*sval{}, 0)
+		if !sum.OK {
+			c.undecided(rid, key, pos, "the constructor's result could not be followed to proto.NewMessageWithType: "+sum.Why)
+			continue
+		}
+		var typ int64 = -99
+		if sum.Typ != nil && sum.Typ.Kind == "const" {
+			if k, ok := constInt(sum.Typ.C); ok {
+				typ = k
+			}
+		}
 		if typ != tt.consts[want[name]] {
 			c.bad(rid, key, pos, fmt.Sprintf("builds message type %d, expected %s", typ, want[name]))
 			continue
 		}
+		setBytes := sum.Bytes
+		isBytesConv := func(v *sval) bool { return v != nil && v.Kind == "conv" && v.Name == "[]byte" && len(v.Args) == 1 }
 		problem := ""
 		switch name {
 		case "NewNilMessage":
-			if setBytes == nil || !isNilConst(setBytes) {
+			if setBytes == nil || setBytes.Kind != "const" || !isNilConst(setBytes.C) {
 				problem = "the nil message does not carry a nil payload"
 			}
 		case "NewBulkMessage", "NewStringMessage", "NewErrorMessage":
-			cv, ok := setBytes.(*ssa.Convert)
-			if !ok || cv.Type().String() != "[]byte" {
+			if !isBytesConv(setBytes) {
 				problem = "payload is not the []byte conversion of the argument (a conditional or transformed payload changes the value or its nil-ness)"
 			} else if name != "NewErrorMessage" {
-				if _, isPar := cv.X.(*ssa.Parameter); !isPar {
+				if setBytes.Args[0].Kind != "param" {
 					problem = "payload is not converted directly from the argument"
 				}
 			}
 		case "NewIntegerMessage":
 			problem = "integer not formatted with strconv.Itoa/FormatInt(.,10)"
-			if cv, ok := setBytes.(*ssa.Convert); ok {
-				if call, ok := cv.X.(*ssa.Call); ok {
-					cn := calleeName(call.Common())
-					if cn == "strconv.Itoa" || (cn == "strconv.FormatInt" && isConstIntVal(call.Common().Args[1], 10)) {
-						problem = ""
-					}
+			if isBytesConv(setBytes) && setBytes.Args[0].Kind == "call" {
+				call := setBytes.Args[0]
+				if call.Name == "strconv.Itoa" && len(call.Args) == 1 && call.Args[0].Kind == "param" {
+					problem = ""
+				}
+				if call.Name == "strconv.FormatInt" && len(call.Args) == 2 && call.Args[1].Kind == "const" && isConstIntVal(call.Args[1].C, 10) {
+					problem = ""
 				}
 			}
 		case "NewFloatMessage":
 			problem = "float not formatted with strconv.FormatFloat"
-			if cv, ok := setBytes.(*ssa.Convert); ok {
-				if call, ok := cv.X.(*ssa.Call); ok && calleeName(call.Common()) == "strconv.FormatFloat" {
-					a := call.Common().Args
-					f, _ := constInt(a[1])
-					prec, _ := constInt(a[2])
-					bits, _ := constInt(a[3])
-					switch {
-					case bits != 64:
-						problem = "FormatFloat bitSize is not 64: float64 values are rounded to float32"
-					case prec == -1:
-						problem = ""
-					case (f == 'e' || f == 'E' || f == 'g' || f == 'G') && prec >= 17:
-						problem = ""
-					default:
-						problem = fmt.Sprintf("FormatFloat(%q, %d) does not round-trip every finite float64", rune(f), prec)
+			if isBytesConv(setBytes) && setBytes.Args[0].Kind == "call" && setBytes.Args[0].Name == "strconv.FormatFloat" && len(setBytes.Args[0].Args) == 4 {
+				a := setBytes.Args[0].Args
+				ci := func(v *sval) int64 {
+					if v.Kind != "const" {
+						return -12345
 					}
+					k, _ := constInt(v.C)
+					return k
+				}
+				f, prec, bits := ci(a[1]), ci(a[2]), ci(a[3])
+				switch {
+				case a[0].Kind != "param":
+					problem = "FormatFloat is not applied to the argument itself"
+				case bits != 64:
+					problem = "FormatFloat bitSize is not 64: float64 values are rounded to float32"
+				case prec == -1:
+					problem = ""
+				case (f == 'e' || f == 'E' || f == 'g' || f == 'G') && prec >= 17:
+					problem = ""
+				default:
+					problem = fmt.Sprintf("FormatFloat(%q, %d) does not round-trip every finite float64", rune(f), prec)
 				}
 			}
 		default:
-			if !hasSetArray {
+			if !sum.SetArray {
 				problem = "array constructor does not set an array"
 			}
 		}
@@ -1265,24 +1302,97 @@ func isByteType(t types.Type) bool {
 	return ok && b.Kind() == types.Uint8
 }
 
-// isTypeToByteFn: a function of proto that looks its MessageType argument up in the type->byte table.
+// isTypeToByteFn: the function of proto mapping a MessageType to (its type byte, ok) — by a
+// package-level table or by a switch.
 func isTypeToByteFn(f *ssa.Function) bool {
-	if f == nil || f.Blocks == nil || fnPkgPath(f) != pkgProto || len(f.Params) != 1 {
+	if f == nil || f.Blocks == nil || fnPkgPath(f) != pkgProto || len(f.Params) != 1 || f.Signature.Recv() != nil {
 		return false
 	}
-	found := false
+	res := f.Signature.Results()
+	if res.Len() != 2 || !isByteType(res.At(0).Type()) || !isBoolType(res.At(1).Type()) {
+		return false
+	}
+	n, ok := f.Params[0].Type().(*types.Named)
+	return ok && n.Obj().Name() == "MessageType"
+}
+
+func isBoolType(t types.Type) bool {
+	b, ok := t.Underlying().(*types.Basic)
+	return ok && b.Kind() == types.Bool
+}
+
+// tableOfFn reads the finite map computed by a one-argument lookup function: either
+// `v, ok := table[arg]; return v, ok` over a package-level map literal, or a switch over the
+// argument whose cases return (constant, true).
+func tableOfFn(f *ssa.Function, globalMap func(*ssa.Global) map[int64]int64) (map[int64]int64, string) {
+	par := f.Params[0]
+	var viaMap map[int64]int64
 	allInstrs(f, func(ins ssa.Instruction) {
-		if lk, ok := ins.(*ssa.Lookup); ok {
+		if lk, ok := ins.(*ssa.Lookup); ok && strip(lk.Index) == ssa.Value(par) {
 			if ld, ok := lk.X.(*ssa.UnOp); ok {
 				if g, ok := ld.X.(*ssa.Global); ok {
-					if m, ok := g.Type().(*types.Pointer).Elem().Underlying().(*types.Map); ok && isByteType(m.Elem()) && strip(lk.Index) == ssa.Value(f.Params[0]) {
-						found = true
-					}
+					viaMap = globalMap(g)
 				}
 			}
 		}
 	})
-	return found
+	if viaMap != nil {
+		// every return must forward the lookup's results
+		for _, r := range returnsOf(f) {
+			for _, v := range r.Results {
+				ex, ok := strip(v).(*ssa.Extract)
+				if !ok {
+					return nil, "a return does not forward the table lookup"
+				}
+				if _, ok := ex.Tuple.(*ssa.Lookup); !ok {
+					return nil, "a return does not forward the table lookup"
+				}
+			}
+		}
+		return viaMap, ""
+	}
+	tab := map[int64]int64{}
+	for _, r := range returnsOf(f) {
+		if len(r.Results) != 2 {
+			return nil, "unexpected arity"
+		}
+		okv, isC := constBool(retOperand(r, 1))
+		if !isC {
+			return nil, "the ok result is not a constant on some return"
+		}
+		if !okv {
+			continue
+		}
+		v, isC := constInt(retOperand(r, 0))
+		if !isC {
+			return nil, "a case returns a non-constant"
+		}
+		var keys []int64
+		for _, at := range factsAt(r.Block()) {
+			if at.Kind == "eq" && at.Pos {
+				if strip(at.X) == ssa.Value(par) {
+					if k, ok := constInt(at.Y); ok {
+						keys = append(keys, k)
+					}
+				} else if strip(at.Y) == ssa.Value(par) {
+					if k, ok := constInt(at.X); ok {
+						keys = append(keys, k)
+					}
+				}
+			}
+		}
+		if len(keys) != 1 {
+			return nil, "a (value, true) return is not under exactly one equality test of the argument"
+		}
+		if old, dup := tab[keys[0]]; dup && old != v {
+			return nil, "two cases for one key"
+		}
+		tab[keys[0]] = v
+	}
+	if len(tab) == 0 {
+		return nil, "no (constant, true) return found"
+	}
+	return tab, ""
 }
 
 // isTypeByteCtor: a function of proto taking the type byte and returning (*Message, error).
